@@ -179,11 +179,16 @@ var (
 		"/search?q=&amp;lt;", "http://example.com/p?x=&amp;amp;y", "?a=1&amp;copy=2", "http://a.b/?x=&lt;y", "/a&#47;b", "data: text/plain", "data:image/png;base64 iVBOR", "data:\ttext/plain", "data:x y,z",
 		"data:image/gif;base64,R0lG ODlh", "DATA:image/png;base64,AAAA", "http://a.b/?q=%26amp%3B", "mailto:a@b.c?subject=x&amp;body=y",
 		"javascript:1/alert(1)", "JavaScript:80/alert(1)", "data:443/text/html,x", "vbscript:8080", "localhost:8080/path", "x:1", "/%2Fexample.com/caf\u00e9", "/%2fevil.example/a|b", "%2F%2Fexample.com/x^y", "/%2F%2Fa.b/\"q\"",
-		"http://a.b/?a%26b=1", "https://a.b/p?x%3Cy=1&amp;a%22b=2", "http://a.b/?a&amp;b=1&amp;%3C=2", "http://a.b/?%27=1"}
-	RelPool    = []string{"external\u00a0nofollow", "noopener\vnofollow", "nofollow\u0085noreferrer", "noreferrer\u2003x", "", "nofollow", "noopener", "noreferrer", "nofollow noopener", "xnofollowx", "NOFOLLOW", "author", "a b c", "noopenerx", "no follow"}
+		"http://a.b/?a%26b=1", "https://a.b/p?x%3Cy=1&amp;a%22b=2", "http://a.b/?a&amp;b=1&amp;%3C=2", "http://a.b/?%27=1",
+		// relative references whose fragment (or query) holds a colon; data URIs whose media type grows when lower-cased; upper-case data / base64
+		"#fn:1", "notes.html#sec:2", "chart.png#xywh=percent:5,5,90,90", "p?t=1:2", "a#b:c/d", "data:\u023a\u023a\u023a\u023a;base64,a b", "data:\u0130\u023e;base64,a\nb", "DATA:image/png;BASE64,a\nb", "data:IMAGE/PNG;Base64,AA AA",
+		"https:tracker.example.net/pixel.gif", "http:a.b/c", "mailto:x"}
+	RelPool    = []string{"external\u00a0nofollow", "noopener\vnofollow", "nofollow\u0085noreferrer", "noreferrer\u2003x", "", "nofollow", "noopener", "noreferrer", "nofollow noopener", "xnofollowx", "NOFOLLOW", "author", "a b c", "noopenerx", "no follow",
+		// tokens of which a link type is a proper prefix or suffix, before and after the genuine token
+		"nofollow-sponsored nofollow", "NoFollowed x", "noreferrer/v2 noreferrer", "noopener-strict noopener", "nofollow-x", "xnofollow nofollow", "nofollow nofollow-x", "noreferrer-a noopener-b nofollow-c"}
 	TargetPool = []string{"_blank", "_BLANK", "_self", "", "x", " _blank"}
 	StylePool  = []string{"color: red", "color:red;", "COLOR: RED", "color: red; width: 1px", "width:1px;color:blue;x-prop:y", "color: \\72 ed",
-		"color: r\\65 d", "background: url(javascript:alert(1))", "background: url('http://a.b/c.png')", "color: red !important", "color: red ! IMPORTANT ;",
+		"color: b\\6C ue", "color: \\52 ED", "width: expressi\\6F n(1)", "color: r\\00006Cd", "x-prop: \\A9 x", "color: \\4F range", "color: r\\65 d", "background: url(javascript:alert(1))", "background: url('http://a.b/c.png')", "color: red !important", "color: red ! IMPORTANT ;",
 		"-webkit-color: red", "-moz--webkit-width: 2px", "col-o-or: red", "co-ms-lor: red", "widmso-th: 1px", "-webkit-col-o-or: red", "color-o-: red", "transfor-ms-m: none", "-o-col-tc-or: blue",
 		"font-family: \\1f4a9, serif", "font-family: \\1f4a9\\1f4a9, serif", "color: \\1f600\\1f600", "mso-color: blue", "font-family: 'a b', serif", "font-family: \\110000 x", "color: expression(alert(1))",
 		"text-align: LEFT", "text-align: right;;", ";color:red", "color", "color:", ":red", "color: red; } x { y: z", "{color:red}", "color: red /* c */", "color: /* c */ red",
@@ -191,7 +196,9 @@ var (
 		"x-prop: straSSe", "x-prop: STRAßE", "x-prop: K", "color: red; width: 1PX ", "color:\tred", "color: red\r\nwidth:1px", "color: red\x00", "width: 10%", "color: #fff", "color: rgb(1,2,3)",
 		"a:b:c", "color: red; -->", "<!-- color: red", "color: \"}\"; width: 1px", "@import 'x'; color: red", "color: red; @media", "width: 1e3px", "width: .5em", "width: 1.", "color: U+0-7F",
 		"color: \xff", "color\xff: red", "\xef\xbb\xbfcolor: red", "color: url( 'a' )", "color: u\\72l(x)", "color: x(", "color: x()", "color: a~=b", "color: a|b", "color: $=x", "color: *", "color: <", "color: <!--x"}
-	TextPool = []string{"hello", " ", "a & b", "1 < 2", "x > y", "&amp;", "&lt;script&gt;", "\"q\"", "'s'", "\r\n", "é", "\x00", "&#60;", "&notit;", "tab\there", "<", "&", "]]>", "MARK", "&#13;", "a&#xD;b", "cr\rlf", "&#13;&#10;", "&#10;"}
+	TextPool = []string{"hello", " ", "a & b", "1 < 2", "x > y", "&amp;", "&lt;script&gt;", "\"q\"", "'s'", "\r\n", "é", "\x00", "&#60;", "&notit;", "tab\there", "<", "&", "]]>", "MARK", "&#13;", "a&#xD;b", "cr\rlf", "&#13;&#10;", "&#10;",
+		// an incomplete UTF-8 sequence right before an entity or markup-looking text
+		"caf\xc3&lt;b&gt;", "\xe2\x82&lt;i&gt;x", "\xf0&amp;&lt;", "\xc3<", "x\xe2\x82\xac\xe2&gt;"}
 )
 
 // SampleRe draws a string from the language of n (best effort; anchors ignored).
